@@ -206,3 +206,86 @@ Example C05_avx512_xof_35_blocks :
   xof_many_avx512 compress_xof_rows ex_key (ex_input 3) 64 4294967290 11 35 =
   portable_xof_many ex_key (ex_input 3) 64 4294967290 11 35.
 Proof. vm_compute. reflexivity. Qed.
+
+(* ------------------------------------------------------------------ *)
+(* load_counters as TRANSLATED from the sources.  gen/GenCounters.v is regenerated on every run
+   (tools/gen_coq.py gen_counters) from the text of every load_counters* function of
+   c/blake3_sse2.c, c/blake3_sse41.c, c/blake3_avx2.c, c/blake3_avx512.c, src/rust_sse2.rs,
+   src/rust_sse41.rs, src/rust_avx2.rs, as terms over the intrinsic semantics of
+   Model/Intrinsics.v.  For each: (model) it equals the hand-written model of Model/Kernels.v
+   that the kernels above are built on, and (spec) it satisfies the counter statement
+   C05_lc_stmt.  The counter is universally quantified; only the lane count is concrete. *)
+From V Require Import Model.Intrinsics gen.GenCounters Proofs.CountersP.
+
+Theorem C05_counters_c_sse2_model : forall counter incr,
+  Ok (c_sse2_load_counters counter incr) = load_counters_cmp 4 counter incr.
+Proof. exact c_sse2_load_counters_model. Qed.
+Print Assumptions C05_counters_c_sse2_model.
+Theorem C05_counters_c_sse2 : C05_lc_stmt 4 (fun c i => Ok (c_sse2_load_counters c i)).
+Proof. exact c_sse2_load_counters_ok. Qed.
+Print Assumptions C05_counters_c_sse2.
+
+Theorem C05_counters_c_sse41_model : forall counter incr,
+  Ok (c_sse41_load_counters counter incr) = load_counters_cmp 4 counter incr.
+Proof. exact c_sse41_load_counters_model. Qed.
+Print Assumptions C05_counters_c_sse41_model.
+Theorem C05_counters_c_sse41 : C05_lc_stmt 4 (fun c i => Ok (c_sse41_load_counters c i)).
+Proof. exact c_sse41_load_counters_ok. Qed.
+Print Assumptions C05_counters_c_sse41.
+
+Theorem C05_counters_c_avx2_model : forall counter incr,
+  Ok (c_avx2_load_counters counter incr) = load_counters_cmp 8 counter incr.
+Proof. exact c_avx2_load_counters_model. Qed.
+Print Assumptions C05_counters_c_avx2_model.
+Theorem C05_counters_c_avx2 : C05_lc_stmt 8 (fun c i => Ok (c_avx2_load_counters c i)).
+Proof. exact c_avx2_load_counters_ok. Qed.
+Print Assumptions C05_counters_c_avx2.
+
+Theorem C05_counters_c_avx512_4_model : forall counter incr, counter < 2 ^ 64 ->
+  Ok (c_avx512_load_counters4 counter incr) = load_counters_64 4 counter incr.
+Proof. exact c_avx512_load_counters4_model. Qed.
+Print Assumptions C05_counters_c_avx512_4_model.
+Theorem C05_counters_c_avx512_4 : C05_lc_stmt 4 (fun c i => Ok (c_avx512_load_counters4 c i)).
+Proof. exact c_avx512_load_counters4_ok. Qed.
+Print Assumptions C05_counters_c_avx512_4.
+
+Theorem C05_counters_c_avx512_8_model : forall counter incr, counter < 2 ^ 64 ->
+  Ok (c_avx512_load_counters8 counter incr) = load_counters_64 8 counter incr.
+Proof. exact c_avx512_load_counters8_model. Qed.
+Print Assumptions C05_counters_c_avx512_8_model.
+Theorem C05_counters_c_avx512_8 : C05_lc_stmt 8 (fun c i => Ok (c_avx512_load_counters8 c i)).
+Proof. exact c_avx512_load_counters8_ok. Qed.
+Print Assumptions C05_counters_c_avx512_8.
+
+Theorem C05_counters_c_avx512_16_model : forall counter incr,
+  Ok (c_avx512_load_counters16 counter incr) = load_counters_andnot 16 counter incr.
+Proof. exact c_avx512_load_counters16_model. Qed.
+Print Assumptions C05_counters_c_avx512_16_model.
+Theorem C05_counters_c_avx512_16 : C05_lc_stmt 16 (fun c i => Ok (c_avx512_load_counters16 c i)).
+Proof. exact c_avx512_load_counters16_ok. Qed.
+Print Assumptions C05_counters_c_avx512_16.
+
+(* Rust: equality with the model includes the debug-build overflow panic of `counter + (mask & i)` *)
+Theorem C05_counters_rs_sse2_model : forall counter incr,
+  rs_sse2_load_counters counter incr = load_counters_rs 4 counter incr.
+Proof. exact rs_sse2_load_counters_model. Qed.
+Print Assumptions C05_counters_rs_sse2_model.
+Theorem C05_counters_rs_sse2 : C05_lc_stmt 4 rs_sse2_load_counters.
+Proof. exact rs_sse2_load_counters_ok. Qed.
+Print Assumptions C05_counters_rs_sse2.
+
+Theorem C05_counters_rs_sse41_model : forall counter incr,
+  rs_sse41_load_counters counter incr = load_counters_rs 4 counter incr.
+Proof. exact rs_sse41_load_counters_model. Qed.
+Print Assumptions C05_counters_rs_sse41_model.
+Theorem C05_counters_rs_sse41 : C05_lc_stmt 4 rs_sse41_load_counters.
+Proof. exact rs_sse41_load_counters_ok. Qed.
+Print Assumptions C05_counters_rs_sse41.
+
+Theorem C05_counters_rs_avx2_model : forall counter incr,
+  rs_avx2_load_counters counter incr = load_counters_rs 8 counter incr.
+Proof. exact rs_avx2_load_counters_model. Qed.
+Print Assumptions C05_counters_rs_avx2_model.
+Theorem C05_counters_rs_avx2 : C05_lc_stmt 8 rs_avx2_load_counters.
+Proof. exact rs_avx2_load_counters_ok. Qed.
+Print Assumptions C05_counters_rs_avx2.
